@@ -934,6 +934,7 @@ def main(tier):
     import c07_r6
     mstats = c07_r6.run_multi(chk, cases, impl_results, oracle_bad, rows0, spec_of)
     estats = c07_r6.run_edit(chk, cases, impl_results, oracle_bad, rows0, spec_of, report)
+    e2stats = c07_r6.run_edit(chk, cases, impl_results, oracle_bad, rows0, spec_of, report, second=True)
 
     # the table's own verdict on the grouping bindings, with the cause seen on the live objects
     if not tq[2]:
@@ -948,11 +949,11 @@ def main(tier):
                  "how": "gen/gen_t_c07.py probes binding.save_before with is_repeat False/True"}, no_input=False)
 
     dist.update({"key_sessions": kstats["sessions"], "key": kstats, "multi_buffer_sessions": mstats["sessions"], "multi": mstats,
-                 "edit_sessions": estats["sessions"], "edit": estats})
+                 "edit_sessions": estats["sessions"], "edit": estats, "edit2_sessions": e2stats["sessions"], "edit_kill_yank_vi": e2stats})
     chk.coverage["input_distribution"] = dist
 
     def tagger(c, a, m):
-        kind = {0: "buffer", 1: "keys", 3: "multi", 4: "edit"}.get(c[0], "?")
+        kind = {0: "buffer", 1: "keys", 3: "multi", 4: "edit", 6: "edit"}.get(c[0], "?")
         evl = c[4] if c[0] == 3 else c[3]
         step = None
         for j, (x, y) in enumerate(zip(a, m if isinstance(m, list) else [])):
@@ -967,7 +968,7 @@ def main(tier):
             elif kind == "multi":
                 tags["op"] = {1: "Key", 2: "Redo", 3: "UndoKey", 4: "Cpr", 6: "Focus", 7: "Async"}.get(op[0], "?")
             elif kind == "edit":
-                tags["op"] = {1: "Edit", 2: "Redo", 3: "UndoKey", 4: "Cpr"}.get(op[0], "?")
+                tags["op"] = {1: "Edit", 2: "Redo", 3: "UndoKey", 4: "Cpr", 8: "Kill", 9: "ViEscape"}.get(op[0], "?")
             else:
                 tags["op"] = "Key" if op[0] == 1 else "Redo"
                 if op[0] == 1 and 0 <= op[1] < len(rows0) and a[step][0] != (m[step][0] if isinstance(m[step], list) else None):
@@ -979,7 +980,7 @@ def main(tier):
         for j, (x, y) in enumerate(zip(a, m if isinstance(m, list) else [])):
             if x != y:
                 return "%s level, step %d op %r: impl %r model %r" % (
-                    {0: "buffer", 1: "key", 3: "multi-buffer", 4: "edit"}.get(c[0], "?"), j, (c[4] if c[0] == 3 else c[3])[j], x, y)
+                    {0: "buffer", 1: "key", 3: "multi-buffer", 4: "edit", 6: "edit (kills/yanks/Vi)"}.get(c[0], "?"), j, (c[4] if c[0] == 3 else c[3])[j], x, y)
         return "impl %r model %r" % (a[:1], m[:1] if isinstance(m, list) else m)
 
     model_results, nbad = guarded_correspondence(chk, cases, impl_results, rows0, tagger, describe, lambda i: i in oracle_bad)
@@ -989,6 +990,8 @@ def main(tier):
                  [1, S("a"), 0, [[1, -1, 0, S("a"), 0]]], [1, S("a"), 0, [[1, 0, -1, S("a"), 0]]], [3], [0, 1, 2, 3], [1, S("a"), 0, [[7]]],
                  [3, [[S("a"), 2]], 0, [], []], [3, [[S("a"), 0]], 1, [], []], [3, [[S("a"), 0]], 0, [], [[6, 1]]],
                  [3, [[S("a"), 0]], 0, [[3, 0, 0]], []], [3, [[S("a"), 0]], 0, [], [[1, 0, 0, [[0, 1, S("b"), 0]], 0]]],
+                 [6, S("a"), 0, [[8, -1, [1, []], 1]]], [6, S("a"), 0, [[8, 97, [15, [], 97], 1]]], [6, S("a"), 0, [[9, 9999]]],
+                 [3, [[S("a"), 0]], 0, [], [[5, 1, S("b"), 0, 0]]],
                  [4, S("a"), 0, [[1, 0, [19, S("x"), 1]]]], [4, S("a"), 0, [[1, 99, [2, 1]]]], [4, S("a"), 3, []]]
     mres = run_model("c07", malformed)
     for c, r in zip(malformed, mres):
@@ -1029,6 +1032,8 @@ def main(tier):
                             "focus, snapshot decision and every buffer's text, cursor and both stacks compared after every event; the property text is judged per buffer. "
                             "kind 4 (Model/C07_Edit.v): editing sessions (typed characters, backspace, delete, cursor keys, undo keys, redo, reports) where the model is told "
                             "only which binding was dispatched with which data and count and COMPUTES every text with C01's edit model. "
+                            "kind 6 (Model/C07_Edit2.v): the same with kills, yanks and single-dispatch Vi operators computed by C09's model (kill ring carried along). "
+                            "Multi-buffer sessions of the PromptSession flavour also start new prompts (Buffer.reset + Application.reset). "
                             "non-trivial = the case contains an undo that changed the buffer; distinct by hash of the whole case"
                             % ("(all)" if chk.tier == "thorough" else "(10% sample)"))
     chk.assumptions += [
